@@ -85,6 +85,8 @@ struct SeamCtl
     int fired_method = -1;
     int fired_phase = -1;          // last checkpoint kind seen before the fault (-1: none in this call)
     long buffer_errors = 0;
+    bool poison_pending = false;   // FT_POISON fired at this application: seam_after overwrites the output with NaN
+    long native_throws = 0;        // exceptions that originated inside the real wrapper (e.g. CG not converging)
 
     void begin_api()
     {
@@ -97,11 +99,12 @@ struct SeamCtl
         armed_type = type;
         armed_token = token;
         fired = false;
+        poison_pending = false;
         fired_at = 0;
         fired_method = -1;
         fired_phase = -1;
     }
-    void disarm() { armed_at = 0; }
+    void disarm() { armed_at = 0; poison_pending = false; }
 };
 
 // observer of factorization checkpoints (C07); implemented in oracle/krylov.*
